@@ -417,7 +417,7 @@ class DirectOperand(Operand):
             raise OperandTypeError("[{}] is not a direct value".format(self.operand_string))
 
     def translate(self):
-        if not self.instruction.mode.dir:
+        if self.instruction.mode.dir is None:
             raise OperandTypeError(
                 "Instruction [{}] does not support direct addressing".format(self.instruction.mnemonic)
             )
